@@ -8,54 +8,173 @@ from . import arms as A
 SJ = "serde_json::value::Value::"
 
 
+KIND_OF_ACCESSOR = {"serde_json::value::Value::as_i64": "int", "serde_json::number::Number::as_i64": "int",
+                    "serde_json::value::Value::as_f64": "float", "serde_json::number::Number::as_f64": "float",
+                    "serde_json::value::Value::as_bool": "bool", "serde_json::value::Value::as_str": "string",
+                    "serde_json::value::Value::as_array": "array"}
+KIND_OF_VARIANT = {"Bool": "bool", "String": "string", "Array": "array"}     # Number needs an accessor to tell int from float
+WANT_KIND = {"Int": "int", "Float": "float", "Bool": "bool", "String": "string", "Array": "array"}
+
+
+def _accessor(R):
+    """(declared type, JSON kind, produced Value variant) triples of ValueType::convert_from_json.
+    Every place that produces a non-NULL Value (a `Value::X` aggregate in the function, in one of its closures, or a constructor passed to
+    Option::map) is classified by the ValueType variant its path is under, and by the JSON kind that was established for the value it
+    wraps: the serde_json accessor its payload comes from, or the serde_json::Value variant a dominating match selected."""
+    P = R.prog
+    f = PR.view(P, R.need_fn("sqlgrep::model::ValueType::convert_from_json"))
+    forbidden = re.compile(r"serde_json::value::Value::(as_u64|as_number|as_object|pointer|to_string)|serde_json::number::Number::(as_u64|as_u128|as_i128|to_string)|"
+                           r"serde_json::value::.*Display")
+    clos = PR.closures_of(P, f)
+    bad = sorted(set(short(c.name) for g in [f] + clos for c in g.calls if forbidden.search(short(c.name))))
+    if bad:
+        R.violation("C02.accessor", "convert_from_json|forbidden-api", "convert_from_json reads the JSON value through %s: a value of another JSON "
+                    "type would be coerced instead of becoming NULL" % bad, [f.loc()])
+    for g in [f] + clos:
+        for i, s_ in g.stmts():
+            if s_["k"] == "assign" and s_["rv"]["k"] == "cast" and s_["rv"]["ck"] in ("IntToInt", "FloatToInt", "IntToFloat"):
+                R.violation("C02.accessor", "convert_from_json|cast", "numeric cast %s->%s while converting a JSON value"
+                            % (s_["rv"]["from"], s_["rv"]["to"]), ["%s:%d" % (g.file, s_["line"])])
+
+    def declared(bb):
+        """ValueType variants under which block bb of f runs"""
+        out = None
+        for (sw, lab, tgt) in F.guards_dominating(f, bb):
+            info = F.switch_info(f, sw)
+            if info and info[0] == "discr" and info[1].get("adt") == "sqlgrep::model::ValueType":
+                names = dict((dv, n) for dv, n in info[1]["variants"])
+                if lab == "otherwise":
+                    listed = set(names.get(l2) for l2 in info[2] if l2 != "otherwise")
+                    vs = set(names.values()) - listed
+                else:
+                    vs = {names.get(lab)}
+                out = vs if out is None else (out & vs)
+        return out
+
+    def json_variant(bb):
+        for (sw, lab, tgt) in F.guards_dominating(f, bb):
+            info = F.switch_info(f, sw)
+            if info and info[0] == "discr" and info[1].get("adt") == "serde_json::value::Value" and lab != "otherwise":
+                return dict((dv, n) for dv, n in info[1]["variants"]).get(lab)
+        return None
+
+    def kind_of_operand(g, op):
+        """JSON kind established for the value an operand carries: the accessor among its origins"""
+        ks = set()
+        if op.get("k") not in ("copy", "move"):
+            return ks
+        for o in F.origins(g, op, depth=14):
+            if o.kind == "call" and short(o.call.name) in KIND_OF_ACCESSOR:
+                ks.add(KIND_OF_ACCESSOR[short(o.call.name)])
+        return ks
+
+    sites = []      # (variant produced, block in f, kinds, loc)
+    for i, s_ in f.stmts():
+        if s_["k"] == "assign" and s_["rv"]["k"] == "aggr" and s_["rv"].get("adt") == "sqlgrep::model::Value" and s_["rv"].get("variant") != "Null":
+            ks = set()
+            for op in s_["rv"]["ops"]:
+                ks |= kind_of_operand(f, op)
+            sites.append((s_["rv"]["variant"], i, ks, f.loc(i)))
+    for c in f.calls:
+        if not re.search(r"^core::option::Option::(map|and_then|map_or|map_or_else)$", short(c.name)):
+            continue
+        recv_kinds = kind_of_operand(f, c.args[0])
+        for ck in (c.func.get("closure_args") or []):
+            m = re.search(r"model::Value::(\w+)::\{constructor#0\}$", ck)
+            if m:
+                sites.append((m.group(1), c.bb, recv_kinds, c.loc()))
+                continue
+            cf = P.fns.get(ck)
+            if cf is None:
+                continue
+            for i, s_ in cf.stmts():
+                if s_["k"] == "assign" and s_["rv"]["k"] == "aggr" and s_["rv"].get("adt") == "sqlgrep::model::Value" and s_["rv"].get("variant") != "Null":
+                    sites.append((s_["rv"]["variant"], c.bb, recv_kinds, "%s:%d" % (cf.file, s_["line"])))
+    if not sites:
+        R.violation("C02.accessor", "convert_from_json|no-value", "convert_from_json produces no value at all", [f.loc()])
+    seen = set()
+    for vn, bb, kinds, loc in sites:
+        ds = declared(bb)
+        jv = json_variant(bb)
+        if jv in KIND_OF_VARIANT:
+            kinds = kinds | {KIND_OF_VARIANT[jv]}
+        key = "convert_from_json|" + vn
+        if ds is None or len(ds) != 1:
+            R.violation("C02.accessor", key + "|untyped", "a Value::%s is produced on a path that is not under one declared type (%s): the JSON "
+                        "value would be converted whatever the column's type is" % (vn, sorted(ds) if ds else "no match on the declared type"), [loc])
+            continue
+        d = next(iter(ds))
+        want = WANT_KIND.get(d)
+        if want is None or vn != d or kinds != {want}:
+            R.violation("C02.accessor", key,
+                        "declared type %s produces Value::%s from a JSON value established as %s (expected exactly: %s): a value of another JSON "
+                        "type would be coerced instead of becoming NULL" % (d, vn, sorted(kinds) or "nothing (no accessor / variant test)", want), [loc])
+            continue
+        if vn == "Array":
+            ch = [short(c.name) for x in clos for c in x.calls] + [short(c.name) for c in f.calls]
+            if "sqlgrep::model::ValueType::convert_from_json" not in ch:
+                R.violation("C02.accessor", key, "the elements of a JSON array are not converted by convert_from_json of the element type", [loc])
+                continue
+        if key not in seen:
+            seen.add(key)
+            R.ok("C02.accessor", key, "%s: JSON %s -> Value::%s" % (d, want, vn), loc)
+    for d in WANT_KIND:
+        if "convert_from_json|" + d not in seen and not any(v == d for v, _, _, _ in sites):
+            R.violation("C02.accessor", "convert_from_json|" + d, "declared type %s no longer yields a value for a JSON value of its kind" % d, [f.loc()])
+
+
+def _shared_input(R):
+    """columns never influence each other: what one column reads from the per-line input cannot have been changed by another column"""
+    P = R.prog
+    R.rule("C02.shared", "the per-line parsing input (the parsed JSON document and the pattern results) is only borrowed shared once it is "
+                         "built: no function of the extraction subgraph takes it (or a serde_json value) by &mut, and "
+                         "TableDefinition::extract creates no &mut borrow of it - a column cannot consume or alter what the next column reads")
+    exf = R.need_fn("sqlgrep::data_model::TableDefinition::extract")
+    reach = P.reachable([P.fns[exf.key] if exf.key in P.fns else exf])
+    SHARED = re.compile(r"data_model::ParsingInput|serde_json::value::Value|data_model::RegexResult|regex::regex::string::Captures")
+    bad = []
+    n = 0
+    for k in sorted(reach):
+        g = P.fns[k]
+        if g.derived:
+            continue
+        n += 1
+        ctor = g.spath.endswith("ParsingInput::new")
+        for a in range(1, g.arg_count + 1):
+            ty = g.local_ty(a)
+            if ty.startswith("&mut ") and SHARED.search(ty):
+                bad.append((g, "takes `%s`" % ty[:80], g.loc()))
+        if ctor:
+            continue
+        for i, s_ in g.stmts():
+            if s_["k"] != "assign" or s_["rv"]["k"] not in ("ref", "rawptr") or s_["rv"].get("bk") not in ("mut", "Mut"):
+                continue
+            root = s_["rv"]["pl"]["l"]
+            rty = g.local_ty(root)
+            # a local that *is* the parsing input (not a reference to it: &mut through a shared reference does not compile)
+            if SHARED.search(rty) and not rty.startswith("&") and re.match(r"^(sqlgrep::data_model::ParsingInput|serde_json::value::Value)", rty) \
+                    and PR.loop_of(g, i) is not None:
+                bad.append((g, "borrows its %s mutably inside the column loop" % rty.split("<")[0].split("::")[-1], "%s:%d" % (g.file, s_["line"])))
+    if bad:
+        for g, what, loc in bad[:4]:
+            R.violation("C02.shared", "%s|mutable-input" % g.spath.split("::")[-1],
+                        "%s %s: extracting one column can change what the following columns read from the same line (two columns with the same or "
+                        "an overlapping JSON path no longer see the same value)" % (g.path, what), [loc])
+    else:
+        R.ok("C02.shared", "extract-subgraph", "%d functions: the parsing input is shared-borrowed only" % n, exf.loc())
+
+
 def run(R):
     P = R.prog
-    R.rule("C02.accessor", "ValueType::convert_from_json maps each declared type to the serde_json accessor of the same kind (as_i64, as_f64, "
-                           "as_bool, as_str, as_array + element-wise recursion; timestamps/intervals NULL) with no coercing cast and no wildcard")
+    R.rule("C02.accessor", "ValueType::convert_from_json: every non-NULL Value is produced under exactly one declared type, has that type's variant, and "
+                           "wraps a JSON value established to be of the same kind (accessor as_i64 / as_f64 / as_bool / as_str / as_array, or a match on "
+                           "the serde_json variant), arrays element-wise by recursion; no coercing cast; timestamps / intervals produce nothing")
     R.rule("C02.convert", "the JSON arm of ColumnParsing::extract: CONVERT goes as_str -> ValueType::parse, otherwise convert_from_json; "
                           "DEFAULT only when the path is absent")
     R.rule("C02.walk", "JsonAccess::get_value follows object fields with Value::get(name) and array steps with as_array + get(index), "
                        "name / index unmodified; no other serde_json accessor")
     R.rule("C02.total", "the per-line JSON parse is total (unwrap_or(Null)), happens at most once per line and only for tables with JSON columns")
-    f = R.need_fn("sqlgrep::model::ValueType::convert_from_json")
-    sws = A.enum_switches(f, "model::ValueType")
-    want = {"Int": SJ + "as_i64", "Float": SJ + "as_f64", "Bool": SJ + "as_bool", "String": SJ + "as_str", "Array": SJ + "as_array",
-            "Timestamp": None, "Interval": None}
-    forbidden = re.compile(r"serde_json::value::Value::(as_u64|as_number|as_object|pointer|to_string)|serde_json::number::Number::")
-    if not sws:
-        R.violation("C02.accessor", "convert_from_json|no-match", "convert_from_json does not match on the declared type", [f.loc()])
-    else:
-        arms_, wild, rest = A.arms(f, sws[0])
-        if wild:
-            R.violation("C02.accessor", "convert_from_json|wildcard", "wildcard arm covering %s" % rest, [f.loc(sws[0])])
-        for vn, acc in want.items():
-            if vn not in arms_:
-                R.violation("C02.accessor", "convert_from_json|" + vn, "no arm for %s" % vn, [f.loc()])
-                continue
-            # arm region up to the join point: calls strictly inside the arm (exclude the common tail)
-            reg = arms_[vn][1]
-            names = A.region_call_names(f, reg)
-            sj = [n for n in names if n.startswith("serde_json::")]
-            casts = [s["rv"]["ck"] for i, s in A.region_stmts(f, reg) if s["rv"]["k"] == "cast" and s["rv"]["ck"] in ("IntToInt", "FloatToInt", "IntToFloat")]
-            bad = [n for n in names if forbidden.search(n)]
-            ok = (sj == ([acc] if acc else [])) and not casts and not bad
-            if vn == "Array" and ok:
-                # the elements are converted by the same function: in a closure (`map(|x| element.convert_from_json(x))`), in the arm
-                # itself, or in a helper loop that was inlined into it
-                ch = [short(c.name) for x in PR.closures_of(P, f) for c in x.calls] + names
-                ok = "sqlgrep::model::ValueType::convert_from_json" in ch
-            if ok:
-                R.ok("C02.accessor", "convert_from_json|" + vn, "%s -> %s" % (vn, acc.split("::")[-1] if acc else "NULL"), f.loc(arms_[vn][0]))
-            else:
-                R.violation("C02.accessor", "convert_from_json|" + vn,
-                            "declared type %s reads the JSON value through %s (casts %s): a value of another JSON type would be coerced instead of "
-                            "becoming NULL" % (vn, sj or names, casts), [f.loc(arms_[vn][0])])
-        # closures of the arms must not cast either
-        for ch in P.children.get(f.key, []):
-            for i, s in ch.stmts():
-                if s["rv"]["k"] == "cast" and s["rv"]["ck"] in ("IntToInt", "FloatToInt", "IntToFloat"):
-                    R.violation("C02.accessor", "convert_from_json|closure-cast", "numeric cast %s->%s while converting a JSON value"
-                                % (s["rv"]["from"], s["rv"]["to"]), ["%s:%d" % (ch.file, s["line"])])
+    _accessor(R)
     # ---- CONVERT / DEFAULT in the Json arm
     cpe = R.need_fn("sqlgrep::data_model::ColumnParsing::extract")
     gv = [c for c in cpe.calls if short(c.name) == "sqlgrep::data_model::JsonAccess::get_value"]
@@ -235,4 +354,5 @@ def run(R):
         else:
             R.ok("C02.total", "ParsingInput::new", "serde_json::from_str(line).unwrap_or(Null), once; parsed or not depending on the table "
                                                    "definition only (%d guards)" % len(gds), fs[0].loc())
+    _shared_input(R)
     R.assume("serde_json's number model (u64 > i64::MAX, duplicate keys, recursion limit) is the library's; purity of extraction is decided under C01.pure")
